@@ -96,7 +96,11 @@ func (r *validationResponseHandler) HandleValidationResponse(
 		// RFC 9111 §4.3.4 Freshening Stored Responses upon Validation
 		closeBody(resp) // the stored response is returned instead of this one
 		updateStoredHeaders(ctx.Stored.Data, resp)
-		if r.rs != nil {
+		// The freshened response is written back unless storing is forbidden for this
+		// exchange (RFC 9111 §5.2.1.5, §5.2.2.5): no part of a response to a no-store
+		// request, and nothing of a 304 that carries no-store itself, reaches the store.
+		noStore := (ctx.CCReq != nil && ctx.CCReq.NoStore()) || ParseCCResponseDirectives(resp.Header).NoStore()
+		if r.rs != nil && !noStore {
 			// Write the freshened response back, so that later requests are served
 			// from the cache with the updated fields for the new freshness lifetime.
 			_ = r.rs.StoreResponse(
